@@ -42,11 +42,15 @@ TECHNIQUE = ('trace-oracle property-based testing: Hypothesis-generated typed mi
              'captured variable at each local-function call; inferred sets must cover the log')
 RULE = ('programs over int/float/bool/str/list/tuple values drawn from the kind-disciplined generator in vf/c19.py (plain, chained and '
         'tuple/list-pattern assignment incl. nested patterns, re-assignment with another type, if/elif/else, counter-bounded while, '
-        'for over range/literals/variables, break/continue/early return, nested functions up to 2 levels reading and nonlocal-'
+        'for over range/literals/variables, while/else and for/else, break/continue/early return in loop bodies and in the else '
+        'clause of an inner loop (where the jump belongs to the enclosing loop), a variable re-typed right before such a jump and '
+        'strongly updated at the end of the target loop body, nested functions up to 3 levels reading and nonlocal-'
         'rebinding enclosing variables (declaration at the top of the function or later, also inside an if/else/while/for block; '
         'rebinding with another type when the defining function does not use the variable after the call), local functions '
         'defined in branches / loop bodies and called where their def does not dominate (start of the loop body, after the '
-        'join; behind a flag set after the def), redefinitions of a local function name with the same signature, '
+        'join; behind a flag set after the def; at the start of the loop body also from a parameterless function nested 1-3 '
+        'levels further down), calls of an earlier-defined sibling from a later sibling or from functions nested in it (closure-types '
+        'clause only for the callee), redefinitions of a local function name with the same signature, '
         'calls to typed/untyped external functions and annotated/unannotated local functions, '
         'conditional and boolean expressions as sources of "unknown"), each run on 2-4 typed input tuples. One evaluation = one '
         '(program, input) execution. Non-trivial = at least one annotated occurrence was observed at run time AND some variable '
@@ -63,6 +67,10 @@ ASSUMPTIONS = [
     'are not checked (annotation convention)',
     'local functions are called by their own name (no aliasing, no escaping closures, no recursion); no with/try/global/lambda/'
     'comprehension (outside the quantified domain)',
+    'a local function that a later sibling (or a function nested in it) calls is analysed before that call site is seen (known '
+    'finding F32): for such a function (opts.closure_only, set by the generator) only the closure-types clause is compared - '
+    'CLOSURE_TYPES of the function itself against the types its captured variables have at every call, direct or from 1-3 function '
+    'levels further down - and the occurrences inside its body are not; everything outside its body is compared as usual',
     'a nonlocal declaration may stand anywhere before the first use of the name in the function (CPython: it applies to the whole '
     'function scope); the instrumented copy that CPython executes declares the names at the top of the function so that its entry '
     'probes may read them - same bindings, the analysed tree keeps the declaration in place',
@@ -76,6 +84,7 @@ LEVEL_TEXT = ('Randomised exploration of program x input space with CPython itse
               'beyond the cases counted.')
 LEVEL_NOTE = ('Trusted: CPython, the test-side truthful resolver and instrumenter in vf/c19.py, the constructive generator keeping '
               'programs total. Out of reach: programs > ~40 statements, user classes/attributes, aliasing of local functions, '
+              'facts inside the body of a function that a later sibling calls (F32), '
               'the shapes excluded for known findings.')
 
 # Exclusion flags (DESIGN 1.5): each keeps one confirmed defect shape of the unchanged tree out of the generated search; the
@@ -93,7 +102,13 @@ LEVEL_NOTE = ('Trusted: CPython, the test-side truthful resolver and instrumente
 #                                       defining function and that function never uses it again after the call (classes
 #                                       has:nonlocal_retype_unobserved_by_parent, has:call_of_nonlocal_retyper)
 #   no_child_capture_of_nonlocal_bound  a function nested in one that rebinds nonlocal x does not read x (F21c_*)
-#   no_sibling_local_calls              a local function calls only its own children (F32_sibling_*, F32b_*)
+#   no_sibling_local_calls              a local function calls only its own children (F32_sibling_*, F32b_*). Narrowed in round 3:
+#                                       a function (and those nested in it) may call a function defined BEFORE it in an enclosing
+#                                       scope; the callee's body facts are then not compared (opts.closure_only), its closure types
+#                                       are (has:call_of_earlier_sibling_*). Calls at the start of a loop body made from wrapper
+#                                       functions defined there, of a function defined further down in the body, are outside F32/F32b
+#                                       (the wrappers are analysed before the callee, its def reaches them through the back edge) and
+#                                       fully compared (has:call_before_def_in_loop_body_from_function_nested_N_below)
 #   no_starred_target                   no starred unpacking targets (F34_starred_target_gets_element_type)
 #   no_store_to_var_captured_by_callee  a statement does not store to a variable captured by a local function it calls
 #                                       (F33_closure_types_taken_after_the_calling_statement); also: a redefinition of g does not
@@ -620,8 +635,19 @@ def run_case(case, expect_kn=None):
   assign_owner(fn, fn.name)
   seen_buckets = set()
   lines = src.splitlines()
+  # local functions called from a later sibling (generator: narrowed no_sibling_local_calls): the closure-types clause is
+  # compared for them, the facts inside their bodies (known finding F32) are not
+  closure_only = set(opts.get('closure_only') or ())
+  skip = set()
+  if closure_only:
+    for n in ast.walk(fn):
+      if isinstance(n, ast.FunctionDef) and n is not fn and n.name in closure_only:
+        skip.update(m._cid for m in ast.walk(n) if m is not n)
+    info['skipped_body_nodes'] = len(skip)
   for n in ast.walk(fn):
     cid = n._cid
+    if cid in skip:
+      continue
     if isinstance(n, ast.FunctionDef) and n is not fn:
       rec = anno.getanno(n, anno.Static.CLOSURE_TYPES, None)
       for (fid, name), seen in sorted(obsv.clo.items(), key=lambda kv: (kv[0][0], kv[0][1])):
@@ -687,7 +713,7 @@ def run_case(case, expect_kn=None):
       if not isinstance(st_, ast.Assign):
         continue
       for n in ast.walk(st_):
-        if isinstance(n, ast.Name) and isinstance(n.ctx, ast.Store) and n._cid in obsv.obs:
+        if isinstance(n, ast.Name) and isinstance(n.ctx, ast.Store) and n._cid in obsv.obs and n._cid not in skip:
           exp = expect_kn.get('%s:%s' % (owner.get(n._cid), n.id))
           has = anno.hasanno(n, anno.Static.TYPES)
           if exp is not None and (exp == 'U') == has:
@@ -765,6 +791,7 @@ class FnInfo(object):
     self.retypes = set()    # names of the defining function this one rebinds (nonlocal) with values of another type
     self.call_targets = set()  # names stored by statements that call this function
     self.ncalls = 0
+    self.sib_called = False    # called from a later sibling (or a function nested in one): only its closure types are compared
 
 
 class Fn(object):
@@ -789,6 +816,9 @@ class Fn(object):
     self.in_loop = False
     self.taken = set()      # names earlier definitions of the same function name refer to (redefinitions)
     self.is_redef = False
+    self.tainted = False    # this function or one nested in it may call an earlier sibling
+    self.sib_calls = 0      # number of such calls made by this function or one nested in it
+    self.no_sib = False     # (a redefinition of) a function that a sibling calls: makes no sibling calls itself
 
 
 class Gen(object):
@@ -803,9 +833,12 @@ class Gen(object):
     self.budget = cfg.get('budget', 14)
     self.max_fns = cfg.get('max_fns', 3)
     self.max_depth = cfg.get('max_depth', 3)
+    self.max_level = cfg.get('max_level', 3)   # local functions nest up to 3 levels below the analysed function
     self.kn = {}            # 'qualname:name' -> predicted knownness of every local name
     self.forbid = set()     # names the functions called in the expression under construction must not capture
     self.called = []        # FnInfo of local functions called by the statement under construction
+    self.nocall = False     # the expression under construction calls no local function (it stands in a wrapper function)
+    self.closure_only = set()  # local functions called from a later sibling: facts inside their bodies are not compared (F32)
 
   # -- draws
   def i(self, lo, hi):
@@ -875,6 +908,8 @@ class Gen(object):
   def callable_fns(self, fn, retypers=False):
     """Local functions an expression of fn may call here. Functions that re-type a variable of fn (info.retypes) are only
     called by a call statement outside loops (retypers=True), see stmt_funcdef."""
+    if self.nocall:
+      return []
     out = [fn.funcs[n] for n in sorted(fn.funcs) if n in fn.bound]
     out += list(fn.avail_funcs)
     if retypers:
@@ -1003,6 +1038,8 @@ class Gen(object):
     info.ncalls += 1
     self.called.append(info)
     self.note('stmt:local_call')
+    if info.name not in fn.funcs and not self.nocall:
+      self.sibling_call(fn, info)
     args = [self.expr(fn, k, '*', max(0, d - 1)) for (_, k, _) in info.params]
     if args and self.chance(15):
       self.note('has:keyword_call')
@@ -1012,6 +1049,22 @@ class Gen(object):
       fn.hidden |= info.retypes
       self.note('has:call_of_nonlocal_retyper')
     return '%s(%s)' % (info.name, ', '.join(args))
+
+  def sibling_call(self, fn, info):
+    """fn (a later sibling of info, or a function nested in one) calls info: narrowed exclusion no_sibling_local_calls."""
+    owner = info.scope.parent
+    info.sib_called = True
+    self.closure_only.add(info.name)
+    k, f = 0, fn
+    names = self.captured(info)
+    while f is not None and f is not owner:
+      f.sib_calls += 1
+      f.free_used |= names     # what the callee captures is (indirectly) used by every function on the way up
+      k, f = k + 1, f.parent
+    self.note('has:call_of_earlier_sibling_closure_types_only')
+    self.note('has:call_of_earlier_sibling_from_%d_function_levels_below_its_def' % k)
+    if k >= 2:
+      self.note('has:local_call_from_>=2_function_levels_below_def')
 
   def kexpr(self, fn, kind, d):
     opts = []
@@ -1332,40 +1385,137 @@ class Gen(object):
     fn.bound = b
     return lines, False
 
-  def stmt_while(self, fn, depth):
+  def stmt_while(self, fn, depth, in_loop=False):
     self.note('stmt:while')
     ctr = Var(self.fresh('i'), 'I', 'K', 'counter', fn)
     fn.vars[ctr.name] = ctr
     self.kn['%s:%s' % (self.qual(fn), ctr.name)] = 'K'
     fn.bound.add(ctr.name)
     lines = ['%s = 0' % ctr.name]
-    test = '%s < %d' % (ctr.name, self.i(0, 3))
-    if self.chance(20):
-      test = '%s and %s' % (test, self.cond(fn, 1))
+    extra = self.cond(fn, 1) if self.chance(20) else None
     saved = set(fn.bound)
-    body = self.loop_body(fn, depth, 'while')
-    fn.bound = saved
+    body, loop = self.loop_body(fn, depth, 'while')
+    fn.bound = set(saved)
+    # a call placed at the start of the body for a function defined further down runs from the second iteration on
+    test = '%s < %d' % (ctr.name, self.i(2, 3) if loop['early'] else self.i(0, 3))
+    if extra is not None and not loop['early']:
+      test = '%s and %s' % (test, extra)
     lines += ['while %s:' % test, '  %s = %s + 1' % (ctr.name, ctr.name)] + ['  ' + l for l in body]
-    return lines, False
+    lines += self.loop_else(fn, depth, 'while', in_loop, saved)
+    fn.bound = saved
+    return lines + self.reads_after_loop(fn, loop), False
 
   def loop_body(self, fn, depth, kind):
     """Body of a loop. A local function defined in it may also be called at the start of the body, guarded by its flag: from the
-    second iteration on that call site is reached by the definition only through the back edge (the def does not dominate it)."""
-    loop = {'bound': set(fn.bound), 'early': [], 'nl': set(fn.nonlocal_names)}
+    second iteration on that call site is reached by the definition only through the back edge (the def does not dominate it).
+    A variable that a jump path of this loop re-types (stmt_jump) gets a strong update at the end of the body, so that the type
+    it has on the jump path travels along the jump edge only."""
+    loop = {'bound': set(fn.bound), 'early': [], 'nl': set(fn.nonlocal_names), 'jumped': [], 'kind': kind}
     fn.loops.append(loop)
     fn.blocks.append(kind)
-    body, _ = self.block(fn, depth + 1, self.i(1, 3), True)
+    body, term = self.block(fn, depth + 1, self.i(1, 3), True)
+    if loop['jumped'] and not term:
+      fn.in_loop = True
+      done = set()
+      for v, ck in loop['jumped']:
+        if v.name in done or v.name in fn.hidden:
+          continue
+        done.add(v.name)
+        others = [k for k in self.exact_subkinds(v.kind) if k != ck]
+        body += self.assign_concrete(fn, v, self.pick(others))
+        self.note('has:strong_update_after_jump_path_retype')
     fn.blocks.pop()
     fn.loops.pop()
-    return loop['early'] + body
+    return loop['early'] + body, loop
 
-  def stmt_for(self, fn, depth):
+  def loop_else(self, fn, depth, kind, in_loop, bound):
+    """Optional `else:` clause of a loop. It is not part of the loop: a break / continue written in it belongs to the enclosing
+    loop (in_loop is the enclosing statement's), and names bound by the loop body are not definitely bound in it."""
+    if not self.chance(50 if in_loop else 35):
+      return []
+    self.note('has:%s_else' % kind)
+    if fn.loops:
+      self.note('has:loop_else_inside_loop')
+    fn.bound = set(bound)
+    fn.in_loop = in_loop
+    fn.blocks.append(kind + '_else')
+    body, _ = self.block(fn, depth + 1, self.i(1, 2), in_loop)
+    fn.blocks.pop()
+    return ['else:'] + ['  ' + l for l in body]
+
+  def reads_after_loop(self, fn, loop):
+    """Reads, after the loop statement, of the variables a jump path of the loop re-typed."""
+    lines, done = [], set()
+    for v, _ in loop['jumped']:
+      if v.name in done or v.name in fn.hidden or v.name not in fn.bound or not self.chance(75):
+        continue
+      done.add(v.name)
+      self.begin_stmt()
+      t = self.new_var(fn, self.generalize(v.kind), 'K')
+      fn.bound.add(t.name)
+      self.note('has:read_after_loop_of_jump_path_retyped')
+      lines.append('%s = %s' % (t.name, self.use(fn, v)))
+    return lines
+
+  @staticmethod
+  def exact_subkinds(kind):
+    if kind == 'N':
+      return ['I', 'F', 'B']
+    if kind in ALEVEL:
+      return ['I', 'F', 'B', 'S']
+    return []
+
+  def assign_concrete(self, fn, v, ck):
+    """`v = <typed expression of exact kind ck>` for an existing typed variable v (ck <= v.kind)."""
+    self.begin_stmt(fn, [v.name])
+    e = self.kexpr(fn, ck, 1)
+    self.stores([v.name])
+    self.forbid = set()
+    if v.name in fn.vars:
+      fn.bound.add(v.name)
+    self.note('stmt:reassign')
+    return ['%s = %s' % (v.name, e)]
+
+  def jump_ctx(self, fn):
+    """'body' / 'else': is the statement under construction in the body of its innermost loop, or in the else clause of a loop
+    (then a jump leaves / continues the loop enclosing that one)?"""
+    for b in reversed(fn.blocks):
+      if b in ('for', 'while'):
+        return 'body'
+      if b in ('for_else', 'while_else'):
+        return 'else'
+    return None
+
+  def stmt_jump(self, fn):
+    """break / continue (terminates the block), usually right after a store that gives a typed variable bound before the
+    target loop a type of its own on this path."""
+    loop = fn.loops[-1]
+    kw = self.pick(['break', 'break', 'continue'])
+    where = self.jump_ctx(fn)
+    self.note('has:%s_in_loop_%s' % (kw, where))
+    if where == 'else':
+      self.note('has:jump_in_else_of_inner_%s_targets_enclosing_%s' % (fn.blocks[[k for k, b in enumerate(fn.blocks)
+                                                                                    if b.endswith('_else')][-1]][:-5], loop['kind']))
+    lines = []
+    cands = [v for v in self.assignable(fn, lambda v: v.kn == 'K' and v.name in fn.vars and v.name in loop['bound']
+                                         and self.exact_subkinds(v.kind))]
+    if cands and self.chance(75):
+      v = self.pick(cands)
+      ck = self.pick(self.exact_subkinds(v.kind))
+      lines += self.assign_concrete(fn, v, ck)
+      loop['jumped'].append((v, ck))
+      self.note('has:retype_before_%s' % kw)
+      if where == 'else':
+        self.note('has:retype_before_jump_in_loop_else')
+    return lines + [kw], True
+
+  def stmt_for(self, fn, depth, in_loop=False):
     self.note('stmt:for')
     self.begin_stmt()
     r = self.i(0, 9)
     pair = False
     if r < 3:
-      it, ek = ('range(%d)' % self.i(0, 3)) if self.chance(70) else ('range(%s %% 3)' % self.kexpr(fn, 'I', 1)), 'I'
+      it, ek = 'range(%d)' if self.chance(70) else ('range(%s %% 3)' % self.kexpr(fn, 'I', 1)), 'I'
     elif r < 6:
       ek = self.pick(['N', 'S', 'A', 'I'])
       elts = ', '.join(self.expr(fn, ek, '*', 1) for _ in range(self.i(1, 3)))
@@ -1399,9 +1549,14 @@ class Gen(object):
     saved = set(fn.bound)
     fn.bound.update(n for n in names if n in fn.vars)
     self.stores(names)
-    body = self.loop_body(fn, depth, 'for')
+    body, loop = self.loop_body(fn, depth, 'for')
+    fn.bound = set(saved)
+    if it == 'range(%d)':
+      it = it % (self.i(2, 3) if loop['early'] else self.i(0, 3))
+    lines = ['for %s in %s:' % (tgt, it)] + ['  ' + l for l in body]
+    lines += self.loop_else(fn, depth, 'for', in_loop, saved)
     fn.bound = saved
-    return ['for %s in %s:' % (tgt, it)] + ['  ' + l for l in body], False
+    return lines + self.reads_after_loop(fn, loop), False
 
   def stmt_funcdef(self, fn, redef=None):
     """def of a new local function, or (redef = FnInfo) another definition of an existing name with the same signature."""
@@ -1409,6 +1564,8 @@ class Gen(object):
     self.note('stmt:def')
     g = Fn(redef.name if redef is not None else 'g%d' % self.nfn, fn, fn.level + 1)
     g.base = 1
+    if g.level >= 3:
+      self.note('has:function_nested_3_levels')
     if redef is not None:
       g.is_redef = True
       for sc in redef.scopes:
@@ -1425,9 +1582,26 @@ class Gen(object):
           continue
         self.note('shape:no_store_to_var_captured_by_callee')
       g.avail_free[v.name] = v
-    sibs = self.callable_fns(fn)
+    sibs = [f for f in self.callable_fns(fn) if f is not redef]   # (a redefinition calling its own name would recurse)
+    g.no_sib = fn.no_sib or (redef is not None and redef.sib_called)
     if sibs and self.want('no_sibling_local_calls', 40):
       g.avail_funcs = sibs
+    elif sibs and not g.no_sib and self.chance(85 if fn.avail_funcs and fn.tainted else 45):
+      # Narrowed exclusion (round 3). F32/F32b are about the facts *inside* a function that an earlier / later sibling calls
+      # (it is analysed before the sibling's call sites are seen) and about siblings defined before it. Kept in the search:
+      # g - and the functions nested in g, to any depth - may call a function defined BEFORE g in an enclosing function, and
+      # then only the closure-types clause is compared for the callee (its CLOSURE_TYPES annotation is complete once the whole
+      # tree was analysed; facts in its body are not compared: opts['closure_only']). The callee makes no sibling calls itself
+      # (its own stale state would be recorded on its callees), is not redefined afterwards (a definition that does not reach
+      # g's def site is F32b), re-types no nonlocal variable, and g's subtree does not shadow a variable the callee captures
+      # (the types recorded at the call site are looked up by name).
+      ok = [f for f in sibs if not f.retypes and not any(sc.tainted for sc in f.scopes)]
+      if ok:
+        g.avail_funcs = ok
+        g.tainted = True
+        for f in ok:
+          g.taken |= self.captured(f)
+        self.note('has:may_call_earlier_sibling')
     params, psrc = [], []
     if redef is not None:
       for pname, kind, typed in redef.params:
@@ -1525,8 +1699,27 @@ class Gen(object):
       fn.funcs[g.name] = info
     else:
       redef.scopes.append(g)
+    if g.tainted:
+      f = fn
+      while f is not None and f.parent is not None:
+        f.tainted = True
+        f = f.parent
     fn.bound.add(g.name)
-    return [head] + ['  ' + l for l in body], False
+    lines = [head] + ['  ' + l for l in body]
+    if redef is None and g.sib_calls and self.chance(60):
+      # the earlier sibling is called directly, a variable it captures gets another type, then g (which calls it, maybe from
+      # a function nested in g) is called: the second type reaches the callee only through the call made below g
+      callees = [f for f in g.avail_funcs if f.sib_called and fn.funcs.get(f.name) is f and f.name in fn.bound and self.can_call(fn, f)]
+      if callees and self.can_call(fn, info):
+        callee = self.pick(callees)
+        saved_in = fn.in_loop
+        lines += self.stmt_call(fn, 1, callee)[0]
+        post = self.retype_captured(fn, callee)
+        if post and self.can_call(fn, info):
+          self.note('has:direct_call_then_retype_then_call_through_later_sibling')
+          lines += post + self.stmt_call(fn, 1, info)[0]
+        fn.in_loop = saved_in
+    return lines, False
 
   def stmt_late_nonlocal(self, fn):
     """The nonlocal declaration of pending names, here (wherever `here` is: function body or a nested block), usually followed
@@ -1579,6 +1772,19 @@ class Gen(object):
       return []
     return self.stmt_assign_existing(fn, 2, only=[v])
 
+  def retype_around(self, fn, info):
+    """(store before, store after) to a variable of fn that info reads: two different exact types ([] , [] if there is none)."""
+    names = set(n for sc in info.scopes for n in sc.free_used)
+    cands = self.assignable(fn, lambda v: v.kn == 'K' and v.name in fn.vars and v.name in names and self.exact_subkinds(v.kind))
+    if not cands:
+      return [], self.retype_captured(fn, info)
+    v = self.pick(cands)
+    ks = self.exact_subkinds(v.kind)
+    k1 = self.pick(ks)
+    k2 = self.pick([k for k in ks if k != k1])
+    self.note('has:captured_var_retyped_before_and_after_call_in_loop_body')
+    return self.assign_concrete(fn, v, k1), self.assign_concrete(fn, v, k2)
+
   def guarded_call(self, fn, info):
     """`if flag: g(...)` for a local function defined in a nested block that is over (its def does not dominate this call)."""
     if not self.can_call(fn, info):
@@ -1605,11 +1811,42 @@ class Gen(object):
         lines = self.stmt_call(fn, 1, info)[0]
         self.note('has:call_before_redefinition_in_loop_body')
       elif info.name in fn.guards:
-        lines = ['if %s:' % fn.guards[info.name]] + ['  ' + l for l in self.stmt_call(fn, 1, info)[0]]
+        if fn.level <= 1 and self.chance(65):
+          lines = self.wrapped_early_call(fn, info)
+        else:
+          lines = ['if %s:' % fn.guards[info.name]] + ['  ' + l for l in self.stmt_call(fn, 1, info)[0]]
         self.note('has:call_before_def_in_loop_body')
     fn.bound, fn.in_loop = saved, saved_in
     fn.hidden -= undeclared
     loop['early'] += lines
+
+  def wrapped_early_call(self, fn, info):
+    """The call, at the start of a loop body, of a function defined further down in that body is made from a function nested
+    1-3 levels below this one: `def h(): [def h2(): [def h3(): ...]] return g(..)`, defined right there and called behind g's
+    flag. The definition of g reaches the wrapper's own def site through the back edge only, and the calling statement is 2-4
+    function levels below the scope that defines g: the definitions a function closes over have to be passed down through
+    every level, and the types the captured variables have at that call must arrive in the closure types of g (the wrapper is
+    textually before every definition of g, so it is analysed first: not the sibling order of F32; it does not exist before
+    the loop, so g's definition does reach it: not F32b). The wrappers have no parameters or locals; the arguments of the call
+    read variables of the enclosing functions 2-4 levels up and call no local function."""
+    levels = self.pick([1, 2, 2, 3, 3] if fn.level == 0 else [1, 2, 2])
+    self.nocall = True
+    try:
+      self.begin_stmt()
+      call = self.call_src(fn, info, 1)
+    finally:
+      self.nocall = False
+    names = [self.fresh('h') for _ in range(levels)]
+    form = self.i(0, 2)
+    inner = ['return ' + call] if form == 0 else [call] if form == 1 else [call, 'return %s' % self.lit('A')]
+    for k in range(levels - 1, -1, -1):
+      inner = ['def %s():' % names[k]] + ['  ' + l for l in inner]
+      if k > 0:
+        inner.append(('return %s()' if self.chance(60) else '%s()') % names[k])
+    self.note('has:call_before_def_in_loop_body_from_function_nested_%d_below' % levels)
+    if levels >= 2:
+      self.note('has:local_call_from_>=2_function_levels_below_def')
+    return inner + ['if %s:' % fn.guards[info.name], '  %s()' % names[0]]
 
   def stmt_funcdef_in_block(self, fn, redef=None):
     """A local function defined inside a branch / loop body, usually called right there. Its definition does not dominate
@@ -1622,12 +1859,20 @@ class Gen(object):
       fn.guards[info.name] = flag
       fn.hoist.append('%s = False' % flag)
       lines = lines + ['%s = True' % flag]
-    if self.chance(75) and self.can_call(fn, info):
+    called = False
+    early = bool(fn.loops) and self.chance(75)
+    if self.chance(85 if early else 75) and self.can_call(fn, info):
       lines = lines + self.stmt_call(fn, 1, info)[0]
+      called = True
     if fn.loops:
-      if self.chance(60):
+      if called and self.chance(75 if early else 40):
+        # a captured variable gets one exact type before the def / the call in the body and another one after it: from the
+        # second iteration on, the call at the start of the body is the only one that runs with the second type
+        pre, post = self.retype_around(fn, info)
+        lines = pre + lines + post
+      elif self.chance(60):
         lines = lines + self.retype_captured(fn, info)
-      if self.chance(70):
+      if early:
         self.early_call(fn, info, self.pick(fn.loops))
     return lines, False
 
@@ -1658,6 +1903,10 @@ class Gen(object):
         lines += self.stmt_call(fn, 1, info)[0]
       elif n in fn.guards:
         lines += self.guarded_call(fn, info)
+    if fn.tainted and fn.avail_funcs and not fn.sib_calls and self.chance(70):
+      cands = [f for f in fn.avail_funcs if self.can_call(fn, f)]
+      if cands:
+        lines += self.stmt_call(fn, 1, self.pick(cands))[0]
     lines.append('return %s' % self.expr(fn, fn.ret_kind, '*', 2))
     return lines
 
@@ -1676,12 +1925,15 @@ class Gen(object):
       else:
         v = self.new_var(fn, self.generalize(info.ret_kind), 'K')
     else:
-      cands = self.assignable(fn, lambda v: v.kn == 'W' and leq(info.ret_kind, v.kind) and self.storable(v))
+      # an unannotated function of this scope is a Callable[..., Any]: its result is typed Any ('W'); called as a captured
+      # name (earlier sibling) the call goes to the resolver, which cannot know the result of a Callable[..., Any] ('U')
+      kn = 'W' if info.name in fn.funcs else 'U'
+      cands = self.assignable(fn, lambda v: v.kn == kn and leq(info.ret_kind, v.kind) and self.storable(v))
       if cands and self.chance(50):
         v = self.pick(cands)
       else:
-        v = self.new_var(fn, info.ret_kind, 'W')
-      self.note('has:any_typed_result')
+        v = self.new_var(fn, info.ret_kind, kn)
+      self.note('has:any_typed_result' if kn == 'W' else 'has:unknown_result_of_unannotated_sibling')
     if v.name in fn.vars:
       fn.bound.add(v.name)
     self.stores([v.name])
@@ -1746,16 +1998,16 @@ class Gen(object):
             (1, lambda: (self.stmt_substore(fn, 2), False))]
     if nest_ok:
       opts += [(4, lambda: self.compound(fn, lambda: self.stmt_if(fn, depth, in_loop), in_loop)),
-               (2, lambda: self.compound(fn, lambda: self.stmt_while(fn, depth), in_loop)),
-               (2, lambda: self.compound(fn, lambda: self.stmt_for(fn, depth), in_loop))]
-    if fn.level < 2 and self.nfn < self.max_fns:
-      redefs = [fn.funcs[n] for n in sorted(fn.funcs) if n in fn.bound and not fn.funcs[n].retypes]
+               (2, lambda: self.compound(fn, lambda: self.stmt_while(fn, depth, in_loop), in_loop)),
+               (2, lambda: self.compound(fn, lambda: self.stmt_for(fn, depth, in_loop), in_loop))]
+    if fn.level < self.max_level and self.nfn < self.max_fns:
+      redefs = [fn.funcs[n] for n in sorted(fn.funcs) if n in fn.bound and not fn.funcs[n].retypes and not fn.funcs[n].sib_called]
       if top:
-        opts.append((4 if fn.level == 0 else 2, lambda: self.stmt_funcdef(fn)))
+        opts.append((4 if fn.level == 0 else 6 if fn.tainted and not fn.sib_calls else 2, lambda: self.stmt_funcdef(fn)))
         if redefs:
           opts.append((2, lambda: self.stmt_funcdef(fn, self.pick(redefs))))
       elif 1 <= depth - fn.base <= 2:
-        opts.append((2, lambda: self.stmt_funcdef_in_block(fn)))
+        opts.append((4 if fn.loops else 2, lambda: self.stmt_funcdef_in_block(fn)))
         if redefs:
           opts.append((4, lambda: self.stmt_funcdef_in_block(fn, self.pick(redefs))))
     if fn.late_nl:
@@ -1768,9 +2020,16 @@ class Gen(object):
     if fn.funcs:
       opts.append((4, lambda: self.stmt_retype_call(fn, 2)))
     if depth > 0 and not top:
-      opts.append((1, lambda: (['return %s' % self.expr(fn, fn.ret_kind, '*', 1)], True)))
+      in_else = self.jump_ctx(fn) == 'else'
+
+      def ret():
+        if in_else:
+          self.note('has:return_in_loop_else')
+        return ['return %s' % self.expr(fn, fn.ret_kind, '*', 1)], True
+      opts.append((1, ret))
       if in_loop:
-        opts.append((1, lambda: ([self.pick(['break', 'continue'])], True)))
+        # in the else clause of an inner loop the jump belongs to the enclosing loop: rarer position, higher weight
+        opts.append((14 if in_else else 2, lambda: self.stmt_jump(fn)))
     return self.wpick(opts)
 
   def block(self, fn, depth, n, in_loop, top=False):
@@ -1809,7 +2068,10 @@ class Gen(object):
     inputs = []
     for _ in range(self.i(2, 4)):
       inputs.append('(' + ', '.join(self.lit(k) for k in kinds) + ',)')
-    return {'src': src, 'inputs': inputs, 'opts': {'unknown_args': unknown}, 'meta': dict(self.meta), 'kn': dict(self.kn)}
+    opts = {'unknown_args': unknown}
+    if self.closure_only:
+      opts['closure_only'] = sorted(self.closure_only)
+    return {'src': src, 'inputs': inputs, 'opts': opts, 'meta': dict(self.meta), 'kn': dict(self.kn)}
 
 
 @st.composite
